@@ -26,6 +26,70 @@ fn load(db: &mut SparqlDatabase, fmt: &str, text: &str) {
     }
 }
 
+/// RDF/XML: the triple the k-th resource of the generated family contributes (subject, predicate, object)
+fn xml_triple(i: usize) -> (String, String, String) {
+    let o = if i % 3 == 0 { format!("http://e/r{}", (i * 7) % 1000) } else { format!("v{} x", i) };
+    (format!("http://e/r{}", i), format!("http://e/p{}", i % 5), o)
+}
+/// the document holding resources 0..k in the layout the loader supports (rdf:Description / rdf:about, property elements
+/// with text or rdf:resource); `per` property elements per Description
+fn xml_doc(k: usize, per: usize) -> String {
+    let mut d = String::from("<?xml version=\"1.0\"?>\n<rdf:RDF xmlns:rdf=\"http://www.w3.org/1999/02/22-rdf-syntax-ns#\" xmlns:ex=\"http://e/\">\n");
+    let mut i = 0;
+    while i < k {
+        // one Description per subject: every resource is its own subject, so `per` only varies the layout
+        let (s, _, _) = xml_triple(i);
+        d.push_str(&format!("  <rdf:Description rdf:about=\"{}\">\n", s));
+        let (_, p, o) = xml_triple(i);
+        let q = p.trim_start_matches("http://e/");
+        if i % 3 == 0 {
+            d.push_str(&format!("    <ex:{} rdf:resource=\"{}\"/>\n", q, o));
+        } else if per % 2 == 0 {
+            d.push_str(&format!("    <ex:{}>{}</ex:{}>\n", q, o, q));
+        } else {
+            d.push_str(&format!("    <ex:{}>\n      {}\n    </ex:{}>\n", q, o, q));
+        }
+        d.push_str("  </rdf:Description>\n");
+        i += 1;
+    }
+    d.push_str("</rdf:RDF>\n");
+    d
+}
+/// `load xml <n> <extra> <layout> <prior>`: load the n-resource document, then (extra > 0) the (n+extra)-resource document
+/// into the same database; prior = 0 empty | 1 the first half of the family already stored | 2 unrelated content
+fn exec_xml(toks: &[&str]) -> String {
+    if toks.len() != 6 {
+        return "bad-request".into();
+    }
+    let nums: Vec<usize> = match toks[2..].iter().map(|t| t.parse().ok()).collect::<Option<Vec<usize>>>() {
+        Some(v) => v,
+        None => return "bad-request".into(),
+    };
+    let (n, extra, layout, prior) = (nums[0], nums[1], nums[2], nums[3]);
+    let r = std::panic::catch_unwind(std::panic::AssertUnwindSafe(|| {
+        let mut db = SparqlDatabase::new();
+        match prior {
+            1 => {
+                let doc: String = (0..n / 2).map(|i| { let (s, p, o) = xml_triple(i); format!("{} {} {} .\n", cross_term(&s), cross_term(&p), cross_term(&o)) }).collect();
+                db.parse_ntriples_and_add(&doc);
+            }
+            2 => db.parse_ntriples_and_add("<urn:x> <urn:y> <urn:z> .\n<http://e/p1> <http://e/r1> \"v1 x\" .\n"),
+            _ => {}
+        }
+        db.parse_rdf(&xml_doc(n, layout));
+        if extra > 0 {
+            db.parse_rdf(&xml_doc(n + extra, layout));
+        }
+        let qs = lex_quads(&db);
+        let mut sum: u64 = 0;
+        for q in &qs {
+            sum = sum.wrapping_add(fnv(q));
+        }
+        format!("n={} sum={}", qs.len(), sum)
+    }));
+    r.unwrap_or_else(|_| "panic".into())
+}
+
 fn show_set(qs: &[String]) -> String {
     format!("n={}{}", qs.len(), with_sp(qs))
 }
@@ -91,6 +155,12 @@ fn document(rng: &mut Rng, fmt: &str, n: usize, stats: &mut Stats) -> String {
     for i in 0..n {
         if !distinct && rng.chance(1, 12) {
             out.push_str(if rng.chance(1, 2) { "\n" } else { "# a comment line\n" });
+        }
+        // the same prefix label re-bound mid-document (two concatenated files): names written before and after the
+        // re-binding are the same text but different IRIs
+        if prefixed && !distinct && n >= 2 && i == n / 2 && rng.chance(1, 3) {
+            stats.hit("prefix_rebound_mid_document");
+            out.push_str("@prefix ex: <http://e2/> .\n");
         }
         // a second prefix declared in the middle of a large document: only the chunk that sees it knows it
         if prefixed && distinct && i == n / 2 {
@@ -227,6 +297,23 @@ impl Prop for C13 {
                 }
             }
         }
+        // RDF/XML: documents around the 8192-triple batch of the threaded loader, re-loaded with a few more resources, with
+        // prior contents that already hold part of the document; one document larger than (worker threads x batch)
+        let cpus = std::thread::available_parallelism().map(|n| n.get()).unwrap_or(16);
+        let mut xml: Vec<(usize, usize)> = vec![(0, 0), (1, 0), (5, 2), (8191, 0), (8192, 1), (8193, 100)];
+        xml.push((cpus * 8192 + 10, 100));
+        if tier == Tier::Thorough {
+            xml.extend([(16384, 0), (16385, 8192), (2 * cpus * 8192, 1), (cpus * 8192, 0)]);
+        }
+        for (n, extra) in xml {
+            for prior in 0..3usize {
+                if tier == Tier::Quick && n > 10000 && prior == 2 {
+                    continue;
+                }
+                out.push(format!("load xml {} {} {} {}", n, extra, (n + prior) % 2, prior));
+                stats.hit("rdfxml_generated_history");
+            }
+        }
         // statements far longer than any I/O or work-splitting window (a WKT geometry, a base64 literal, a long IRI)
         let lens: &[usize] = if tier == Tier::Quick { &[70_000] } else { &[65_535, 65_536, 70_000] };
         for &len in lens {
@@ -294,6 +381,9 @@ impl Prop for C13 {
         let toks: Vec<&str> = req.split(' ').filter(|t| !t.is_empty()).collect();
         if toks.len() < 2 || toks[0] != "load" {
             return "bad-request".into();
+        }
+        if toks[1] == "xml" {
+            return exec_xml(&toks);
         }
         if toks[1] == "cross" {
             let mut quads = Vec::new();
